@@ -627,7 +627,7 @@ impl Composite for BuiltInOp {
             Self::Sub(x, y) => vec![x, y],
             Self::Concat(x, y) => vec![x, y],
             Self::Negate(x) => vec![x],
-            Self::Property(x, _) => vec![x],
+            Self::Property(x, prop) => vec![x, prop],
         }
     }
 
@@ -641,7 +641,7 @@ impl Composite for BuiltInOp {
             Self::Sub(x, y) => Ok(Self::Sub(f(x)?, f(y)?)),
             Self::Concat(x, y) => Ok(Self::Concat(f(x)?, f(y)?)),
             Self::Negate(x) => Ok(Self::Negate(f(x)?)),
-            Self::Property(x, prop) => Ok(Self::Property(f(x)?, prop)),
+            Self::Property(x, prop) => Ok(Self::Property(f(x)?, f(prop)?)),
         }
     }
 
